@@ -307,7 +307,7 @@ def gen_par_stage(rng, *, kinds=('prefetch', 'parmap'), backends=('t',),
 
 
 def gen_desc(rng, *, max_n=8, min_n=0, max_up=3, max_down=2, par_kw=None,
-             simple=False, source_kind=None, falsy_p=0.0):
+             simple=False, source_kind=None, falsy_p=0.0, batched_p=0.0):
     """Generate a valid description: source, 'u0' map, upstream stages, one
     parallel stage, downstream stages."""
     par_kw = par_kw or {}
@@ -347,6 +347,11 @@ def gen_desc(rng, *, max_n=8, min_n=0, max_up=3, max_down=2, par_kw=None,
             if b is not None:
                 desc['stages'].append(st)
                 a = b
+        if batched_p and par['op'] == 'parmap' and desc['stages'][-1]['op'] == 'batch' \
+                and rng.random() < batched_p:
+            # batch_map(fn, num_workers=...): the function is applied to every
+            # element of every batch, one job per batch
+            par['batched'] = True
         b = abs_apply(a, par)
         if b is None:
             continue
